@@ -80,38 +80,67 @@ Proof.
     + unfold sel. rewrite map_length. now symmetry.
 Qed.
 
+(** [spe] for arbitrary edges and (possibly duplicated) externals within a rule's node range;
+    a label without value counts as zero *)
+Lemma spe_general sizes0 (e : nat -> option (list nat -> R)) edges ext xi :
+  (forall u, In u ext -> u < length sizes0) ->
+  (forall ed u, In ed edges -> In u (snd ed) -> u < length sizes0) ->
+  In xi (all_assts (map (fun i => nth i sizes0 0) ext)) ->
+  oapp o (spe o sizes0 e edges ext) xi
+  = sumS o (filter (fun a => nat_list_eqb (sel a ext) xi) (all_assts sizes0))
+         (fun a => prodS o edges (fun ed => oenv o e (fst ed) (sel a (snd ed)))).
+Proof.
+  intros Hext Hedges Hxi. rewrite spe_unfold.
+  destruct (forallb (fun ed => match e (fst ed) with Some _ => true | None => false end) edges) eqn:Hall.
+  - cbn [oapp]. rewrite (spe_body_eq o Hr _ e _ _ xi Hext Hedges Hxi).
+    apply sumS_ext. intros a _. unfold edge_prod. apply prodS_ext. intros ed _. reflexivity.
+  - cbn [oapp]. symmetry. apply (sumS_all_zero o Hr). intros a _.
+    assert (Hex : exists ed, In ed edges /\ e (fst ed) = None).
+    { clear -Hall. induction edges as [|ed es IH]; [discriminate|]. cbn [forallb] in Hall.
+      destruct (e (fst ed)) eqn:E; [|exists ed; split; [now left|exact E]].
+      destruct (IH Hall) as (ed' & H1 & H2). exists ed'. split; [now right|exact H2]. }
+    destruct Hex as (ed & Hin & Hnone). apply (prodS_zero o Hr) with (x := ed); trivial.
+    unfold oenv. now rewrite Hnone.
+Qed.
+
 Variable G : grammar.
 Hypothesis Hwf : wf_grammar G = true.
 
 (** the value of a leave-one-out product on a well-formed rule *)
-Lemma spe_leave_one_out (e : env (R:=R)) r s xi yi :
+Lemma spe_leave_one_out (e : nat -> option (list nat -> R)) r s xi yi :
   wf_rule G r = true -> In s (splits (r_edges r)) ->
   In xi (all_assts (lshape G (r_lhs r))) -> In yi (all_assts (lshape G (fst (snd (fst s))))) ->
-  exists f, spe o (node_sizes G r) (fun l => Some (e l)) (fst (fst s) ++ snd s) (r_ext r ++ snd (snd (fst s))) = Some f
-            /\ f (xi ++ yi)
-               = sumS o (filter (fun a => nat_list_eqb (sel a (r_ext r ++ snd (snd (fst s)))) (xi ++ yi)) (all_assts (node_sizes G r)))
-                      (fun a => prodS o (fst (fst s) ++ snd s) (fun ed => e (fst ed) (sel a (snd ed)))).
+  oapp o (spe o (node_sizes G r) e (fst (fst s) ++ snd s) (r_ext r ++ snd (snd (fst s)))) (xi ++ yi)
+  = sumS o (filter (fun a => nat_list_eqb (sel a (r_ext r ++ snd (snd (fst s)))) (xi ++ yi)) (all_assts (node_sizes G r)))
+         (fun a => prodS o (fst (fst s) ++ snd s) (fun ed => oenv o e (fst ed) (sel a (snd ed)))).
 Proof.
   intros Hw Hs Hxi Hyi. destruct (wf_rule_facts G r Hw) as (_ & Hext & Hedges & Hshape & Hesh).
   destruct (splits_In_parts _ s Hs) as [Hed Hrest].
-  rewrite spe_unfold.
-  rewrite (proj2 (forallb_forall _ _)) by reflexivity.
-  eexists. split; [reflexivity|].
-  rewrite (spe_body_eq o Hr).
-  - apply sumS_ext. intros a _. unfold edge_prod. apply prodS_ext. intros ed _. reflexivity.
+  apply spe_general.
   - intros u Hu. apply in_app_iff in Hu. destruct Hu as [Hu|Hu]; [now apply Hext|now apply (Hedges _ u Hed)].
   - intros ed u Hin Hu. apply (Hedges ed u); trivial. now apply Hrest.
   - rewrite map_app, <- Hshape, <- (Hesh _ Hed). now apply in_all_assts_app.
 Qed.
 
+(** the contribution list of one (rule, edge) pair, summed *)
+Lemma contrib_sum (f : option (list nat -> R)) (n l : nat) (h : nat * nat * (list nat -> R) -> R) :
+  h (n, l, fun _ => zero o) = zero o ->
+  sumS o (match f with Some f => [(n, l, f)] | None => [] end) h = h (n, l, oapp o f).
+Proof.
+  intros H0. destruct f as [f|].
+  - rewrite (sumS_single o Hr). reflexivity.
+  - rewrite sumS_nil. symmetry. exact H0.
+Qed.
+
 (** C03_J_is_formal_derivative: [multi_mv (J x) d], with J as computed by the code at the point
-    [e] (values of all edge labels), equals the derivative [dstep] of the right-hand sides at [e]
-    in the direction [d] restricted to the labels J has blocks for (all labels in the backward
-    pass, where J_inputs is given; the component's labels otherwise) *)
-Theorem J_mv_is_dstep comp (e de : env (R:=R)) wi n xi :
+    [e] (the values of the edge labels; a label without value counts as zero), equals the
+    derivative [dstep] of the right-hand sides at [e] in the direction [d] restricted to the
+    labels J has blocks for (all labels in the backward pass, where J_inputs is given; the
+    component's labels otherwise) *)
+Theorem J_mv_is_dstep comp (e : nat -> option (list nat -> R)) (de : env (R:=R)) wi n xi :
   NoDup comp -> In n comp -> In xi (all_assts (lshape G n)) ->
-  J_mv o G (J_contribs o G comp (fun l => Some (e l)) wi) de n xi
-  = dstep o G e (fun l i => if wi || mem comp l then de l i else zero o) n xi.
+  J_mv o G (J_contribs o G comp e wi) de n xi
+  = dstep o G (oenv o e) (fun l i => if wi || mem comp l then de l i else zero o) n xi.
 Proof.
   intros Hnd Hn Hxi. unfold J_mv, J_contribs.
   rewrite (sumS_flat_map o Hr).
@@ -120,15 +149,15 @@ Proof.
            sumS o (splits (r_edges r)) (fun s =>
              if negb (mem comp (fst (snd (fst s)))) && negb wi then zero o
              else sumS o (filter (fun a => nat_list_eqb (sel a (r_ext r)) xi) (all_assts (node_sizes G r)))
-                        (fun a => mul o (prodS o (fst (fst s) ++ snd s) (fun ed => e (fst ed) (sel a (snd ed))))
+                        (fun a => mul o (prodS o (fst (fst s) ++ snd s) (fun ed => oenv o e (fst ed) (sel a (snd ed))))
                                         (de (fst (snd (fst s))) (sel a (snd (snd (fst s))))))))).
   rewrite (sumS_ext o comp _ (fun n' => if Nat.eqb n' n then inner n' else zero o)).
   - rewrite (sumS_pick Nat.eqb comp n inner Nat.eqb_eq Hnd Hn).
     unfold inner, dstep. apply sumS_ext. intros r Hrin. unfold drule, rule_assts.
     rewrite (sumS_ext o _ _ (fun a => sumS o (splits (r_edges r))
                (fun s => mul o ((fun l i => if wi || mem comp l then de l i else zero o) (fst (snd (fst s))) (sel a (snd (snd (fst s)))))
-                               (prodS o (fst (fst s) ++ snd s) (fun ed => e (fst ed) (sel a (snd ed)))))))
-      by (intros a _; exact (leib_splits o Hr (r_edges r) (fun ed => e (fst ed) (sel a (snd ed)))
+                               (prodS o (fst (fst s) ++ snd s) (fun ed => oenv o e (fst ed) (sel a (snd ed)))))))
+      by (intros a _; exact (leib_splits o Hr (r_edges r) (fun ed => oenv o e (fst ed) (sel a (snd ed)))
                                            (fun ed => if wi || mem comp (fst ed) then de (fst ed) (sel a (snd ed)) else zero o))).
     rewrite (sumS_exchange o Hr). apply sumS_ext. intros s _.
     destruct (mem comp (fst (snd (fst s)))), wi; cbn [negb andb orb].
@@ -146,25 +175,23 @@ Proof.
       destruct (wf_rule_facts G r Hw) as (_ & Hext & Hedges & Hshape & Hesh).
       destruct (splits_In_parts _ s Hs) as [Hed _].
       assert (Hxi' : In xi (all_assts (lshape G (r_lhs r)))) by now rewrite Hlhs.
-      (* the spe call succeeds *)
-      assert (Hsome : exists f, spe o (node_sizes G r) (fun l => Some (e l)) (fst (fst s) ++ snd s) (r_ext r ++ snd (snd (fst s))) = Some f).
-      { rewrite spe_unfold. rewrite (proj2 (forallb_forall _ _)) by reflexivity. eexists. reflexivity. }
-      destruct Hsome as (f & Hf). rewrite Hf. rewrite (sumS_single o Hr). cbn [fst snd]. rewrite Nat.eqb_refl.
+      rewrite contrib_sum.
+      2:{ cbn [fst snd]. rewrite Nat.eqb_refl. apply (sumS_all_zero o Hr). intros yi _. ring. }
+      cbn [fst snd]. rewrite Nat.eqb_refl.
       rewrite (sumS_ext o _ _ (fun yi =>
                  sumS o (filter (fun a => nat_list_eqb (sel a (r_ext r ++ snd (snd (fst s)))) (xi ++ yi)) (all_assts (node_sizes G r)))
-                      (fun a => mul o (prodS o (fst (fst s) ++ snd s) (fun ed => e (fst ed) (sel a (snd ed))))
+                      (fun a => mul o (prodS o (fst (fst s) ++ snd s) (fun ed => oenv o e (fst ed) (sel a (snd ed))))
                                       (de (fst (snd (fst s))) yi)))).
       * apply (sum_collapse (all_assts (node_sizes G r)) (r_ext r) (snd (snd (fst s))) (lshape G (fst (snd (fst s)))) xi
-                            (fun a yi => mul o (prodS o (fst (fst s) ++ snd s) (fun ed => e (fst ed) (sel a (snd ed))))
+                            (fun a yi => mul o (prodS o (fst (fst s) ++ snd s) (fun ed => oenv o e (fst ed) (sel a (snd ed))))
                                                (de (fst (snd (fst s))) yi))).
         -- apply all_assts_length in Hxi'. rewrite Hshape, map_length in Hxi'. exact Hxi'.
         -- intros a Ha. now apply (edge_arg_in_range G r _ a Hw Hed).
-      * intros yi Hyi. destruct (spe_leave_one_out e r s xi yi Hw Hs Hxi' Hyi) as (f' & Hf' & Hval).
-        rewrite Hf in Hf'. injection Hf' as <-. rewrite Hval. apply (sumS_mul_r o Hr).
+      * intros yi Hyi. rewrite (spe_leave_one_out e r s xi yi Hw Hs Hxi' Hyi). apply (sumS_mul_r o Hr).
     + apply (sumS_all_zero o Hr). intros r _. rewrite (sumS_flat_map o Hr).
       apply (sumS_all_zero o Hr). intros s _.
       destruct (negb (mem comp (fst (snd (fst s)))) && negb wi); [reflexivity|].
-      destruct (spe o (node_sizes G r) (fun l => Some (e l)) (fst (fst s) ++ snd s) (r_ext r ++ snd (snd (fst s)))); [|reflexivity].
+      destruct (spe o (node_sizes G r) e (fst (fst s) ++ snd s) (r_ext r ++ snd (snd (fst s)))); [|reflexivity].
       rewrite (sumS_single o Hr). cbn [fst snd]. now rewrite En.
 Qed.
 End DualJ.
